@@ -4,6 +4,7 @@ A *schedule* is what TLC prints for one behaviour of spec/TlsPump.tla:
     {"v": 12|13, "cfg": {"sc": {"c": bool, "s": bool}, "big": {"c": bool, "s": bool}},
      "h": [choice, ...], "fin": {...model's projection after the last choice...}}
 with choices  {"w": "op", "s": side, "op": "send"|"recv"|"close", "a": units}
+                  (send / recv also AFTER a call of the side has raised: the end is observed again)
               {"w": "dl", "s": side, "k": units}        transport hands k cipher units to side
               {"w": "eof", "s": side}                   transport reports end-of-file to side
 plus the harness-side concretisation {"conc": {"unit": bytes per plaintext unit, "frag": style,
@@ -32,7 +33,7 @@ from typing import Any
 
 from .replay import ensure_repo_on_path
 
-STREAM_LEN = 3 * 3 * 16384 + 64
+STREAM_LEN = 80 * 16384 + 64
 _CTX: dict[Any, Any] = {}
 _STREAMS: dict[str, bytes] = {}
 
@@ -102,6 +103,7 @@ class Pipe:
         self.pos = 0                # bytes handed out so far
         self.marks: list[int] = []  # absolute offsets of the abstract unit boundaries beyond pos
         self.recs: list[tuple[int, int, str]] = []   # abstract records (start, end, kind)
+        self.parsed = 0             # send(): ciphertext up to here has been cut into records
         self.real_ends: list[int] = []               # absolute ends of the real TLS records
         self.closed = False         # the sender closed its end
         self.eofd = False           # end-of-file was reported to the receiver
@@ -173,15 +175,18 @@ class Side:
         self.endr = ""
         self.closer = ""
         self.failed = False
+        self.reobserved = False     # complete() has asked for the end once more
 
 
 def classify(exc: BaseException) -> str:
-    from anyio import BrokenResourceError, EndOfStream
+    from anyio import BrokenResourceError, ClosedResourceError, EndOfStream
 
     if isinstance(exc, EndOfStream):
         return "eos"
     if isinstance(exc, BrokenResourceError):
         return "broken"
+    if isinstance(exc, ClosedResourceError):
+        return "closed"
     return "other"
 
 
@@ -215,17 +220,34 @@ class Run:
         self.emit(ev="tsend", s=side.name, n=len(data))
         if not data:
             return
-        real = parse_records(data)
         kind = {"wrap": "hs", "close": "cn", "send": "app"}.get(side.op, "x")
         if side.op == "wrap" and self.v == 13 and side.name == "s" and side.ntsend >= 1:
             kind = "tk"
         side.ntsend += 1
-        if real is not None:
-            pipe.real_ends += [base + e for (_, e, _) in real]
-        if side.op == "send" and real:
-            spans = [(base + a, base + b) for (a, b, _) in real]
+        if side.op == "send":
+            # every TLS record is one abstract record.  The ciphertext of one send() may reach the
+            # transport in several transport.send() calls that split records anywhere (deviation
+            # FlushInPieces of TlsPump.tla): cut the byte stream, not the call, into records; an
+            # unfinished record waits for its rest
+            spans = []
+            while pipe.parsed + 5 <= len(pipe.buf):
+                a = pipe.parsed
+                b = a + 5 + int.from_bytes(pipe.buf[a + 3:a + 5], "big")
+                if pipe.buf[a] not in (20, 21, 22, 23) or pipe.buf[a + 1] != 3:
+                    spans.append((a, len(pipe.buf)))     # not TLS at all: one opaque record
+                    pipe.parsed = len(pipe.buf)
+                    break
+                if b > len(pipe.buf):
+                    break
+                spans.append((a, b))
+                pipe.real_ends.append(b)
+                pipe.parsed = b
         else:
+            real = parse_records(data)
+            if real is not None:
+                pipe.real_ends += [base + e for (_, e, _) in real]
             spans = [(base, base + len(data))]
+            pipe.parsed = len(pipe.buf)
         for a, b in spans:
             pipe.recs.append((a, b, kind))
             pipe.marks += [self._split(pipe, a, b), b]
@@ -344,6 +366,8 @@ class Run:
             side.ntsend = 0
             if op["op"] == "send":
                 n = op["a"] * self.unit[side.name]
+                if side.sent_off + n > STREAM_LEN:
+                    raise RuntimeError("C17 harness: STREAM_LEN too small for this schedule")
                 data = streams[side.name][side.sent_off:side.sent_off + n]
                 side.sent_off += n
                 self.emit(ev="start", s=side.name, op="send", n=n)
@@ -484,16 +508,14 @@ class Run:
         if side.state != "rest" or side.op_fut is None:
             self.flags["drift"].append(f"op {x} {op['op']}: not idle")
             return False
-        if side.failed and op["op"] != "close":
-            self.flags["drift"].append(f"op {x} {op['op']}: stream already failed")
-            return False
         await self._resume(side.op_fut, op)
         return True
 
     async def complete(self) -> None:
         """After the last choice of the schedule: a benign environment finishes the run - hand over
-        whatever is in flight, let idle applications close, report end-of-file where the peer has
-        closed; when nothing can move any more record the stall and end the transport."""
+        whatever is in flight, let idle applications close (one whose receive() has raised calls
+        receive() once more first: the end is observed at least twice in every run), report
+        end-of-file where the peer has closed; when nothing can move any more record the stall and end the transport."""
         for _ in range(200):
             moved = False
             for x in "cs":
@@ -507,7 +529,13 @@ class Run:
             if moved:
                 continue
             for x in "cs":
-                if self.sides[x].state == "rest":
+                side = self.sides[x]
+                if side.state == "rest" and side.endr and not side.reobserved:
+                    # an application that was told the end asks once more before it closes
+                    side.reobserved = True
+                    moved = await self.start_op(x, {"op": "recv", "a": 1})
+                    break
+                if side.state == "rest":
                     moved = await self.start_op(x, {"op": "close", "a": 0})
                     break
             if moved:
